@@ -125,7 +125,7 @@ func execCLI(ctx context.Context, fx *respFixture, ctl, bin, ws string, s *Scena
 	}
 	msg := strings.ReplaceAll(strings.TrimSpace(res.Stderr), fx.root, "<root>")
 	msg = strings.ReplaceAll(msg, ctl, "<ctl>")
-	if strings.Contains(res.Stderr, "protoc-gen-verif:") || strings.Contains(res.Stderr, "could not find protoc plugin") || strings.Contains(res.Stderr, "exec format") || strings.Contains(res.Stderr, "permission denied") {
+	if strings.Contains(res.Stderr, "VERIF-PLUGIN-FAILURE") || strings.Contains(res.Stderr, "could not find protoc plugin") || strings.Contains(res.Stderr, "exec format") || strings.Contains(res.Stderr, "permission denied") {
 		return true, msg, fmt.Errorf("plugin did not run: %s", msg)
 	}
 	return true, fmt.Sprintf("exit %d: %s", res.ExitCode, msg), nil
@@ -144,12 +144,17 @@ func runCLIResponses(r *evid.Run, scratch, bin string, names []string) {
 		name string
 	}
 	var items []item
+	nconf := 0
 	for _, oc := range outConfigs {
+		if oc.label == "jar" || oc.label == "zip-shared" || oc.label == "shared-respelled" {
+			continue // covered on the seam (half B); every CLI run costs two process starts
+		}
+		nconf++
 		for _, n := range names {
 			items = append(items, item{oc, n})
 		}
 	}
-	r.Set("C_response_space", map[string]any{"out_configs": len(outConfigs), "probe_names": len(names), "kinds": respKinds, "contents": 2})
+	r.Set("C_response_space", map[string]any{"out_configs": nconf, "probe_names": len(names), "kinds": respKinds, "contents": 2})
 	total := &RespStats{}
 	lock := make(chan struct{}, 1)
 	lock <- struct{}{}
@@ -354,7 +359,7 @@ func runCLIRequests(r *evid.Run, scratch, bin string, layoutList [][]string) {
 			items = append(items, item{gi, g, l})
 		}
 	}
-	r.Set("C_request_space", map[string]any{"dags_n3": len(dags), "layouts": len(layoutList), "runs_per_workspace": 10})
+	r.Set("C_request_space", map[string]any{"dags_n3": len(dags), "layouts": len(layoutList), "runs_per_workspace": 8})
 	total := &ReqStats{}
 	var runs, failedRuns int
 	lock := make(chan struct{}, 1)
@@ -467,9 +472,17 @@ func runCLIRequests(r *evid.Run, scratch, bin string, layoutList [][]string) {
 		}
 		run := 0
 		sub := (it.gi+ix)%6 + 1
+		// buf.gen.yaml rejects include_wkt without include_imports, so 3 settings per strategy: 3 runs cover all 6
+		flags := [][2]bool{{false, false}, {true, false}, {true, true}}
 		for _, tmask := range []int{7, sub} {
-			for k := 0; k < 4; k++ {
-				one(run, tmask, [2]ReqConfig{reqConfigs[k], reqConfigs[7-k]}, (k+ix)%2 == 0)
+			for k := 0; k < 3; k++ {
+				a := ReqConfig{Strategy: "all", IncludeImports: flags[k][0], IncludeWKT: flags[k][1]}
+				d := ReqConfig{Strategy: "directory", IncludeImports: flags[2-k][0], IncludeWKT: flags[2-k][1]}
+				pair := [2]ReqConfig{a, d}
+				if (ix+k)%2 == 1 {
+					pair = [2]ReqConfig{d, a}
+				}
+				one(run, tmask, pair, (k+ix/2)%2 == 0)
 				run++
 			}
 		}
@@ -481,9 +494,9 @@ func runCLIRequests(r *evid.Run, scratch, bin string, layoutList [][]string) {
 				exc.MustGenerate = append(exc.MustGenerate, c.Path(i))
 			}
 		}
-		one(run, 7, [2]ReqConfig{inc, reqConfigs[0]}, false)
+		one(run, 7, [2]ReqConfig{inc, {Strategy: "all"}}, false)
 		run++
-		one(run, 7, [2]ReqConfig{reqConfigs[7], exc}, true)
+		one(run, 7, [2]ReqConfig{{Strategy: "directory", IncludeImports: true, IncludeWKT: true}, exc}, true)
 		<-lock
 		total.add(st)
 		runs += localRuns
